@@ -102,8 +102,17 @@ def generate(tier, rng, around=None):
         kt = {'quick': 500, 'thorough': 12000, 'widen': 3000}[tier]
         for t in (trip if len(trip) <= kt else rng.sample(trip, kt)):
             cases.append(dict(base, events=life.place(n, [singles[x] for x in t]) + tail))
-    return {'cases': cases, 'exhaustive': True,
-            'scope': '3 waiting programs x every single event at every boundary; ordered pairs and triples (several events in one loop iteration) sampled'}
+    # the same schedules with a listener that reacts to a notification with play() of its own (re-entrantly, from inside the
+    # transition or the pause that notifies it): listener scripts are part of the quantifier of the all-run theorems; play() from
+    # anywhere only withdraws or ends a pause, so every demand of the oracle stays valid
+    pool = [c for c in cases if '_corpus' not in c]
+    kl = {'quick': 150, 'thorough': 4000, 'widen': 400}[tier]
+    for c in (pool if len(pool) <= kl else rng.sample(pool, kl)):
+        l = rng.choice(['on_process_running', 'on_process_waiting', 'on_process_paused', 'on_process_played'])
+        cases.append(dict(c, listeners=[[l, rng.choice([0, 1]), ['play']]], _prog=c['_prog'] + '+listener'))
+    return {'cases': cases, 'exhaustive': False,
+            'scope': '3 waiting programs x every single event at every boundary; ordered pairs and triples (several events in one loop iteration) sampled; '
+                     'sampled: the same with a listener reacting to a notification with play()'}
 
 
 def shrink_candidates(case):
